@@ -17,7 +17,7 @@ SPEC = {
             "string) and R2 (satisfies the reference AST the text was printed from). distinct = distinct (family, grammar, "
             "settings, solution string)",
     "minimum": {"quick": {"trees_judged": 300, "solvers_with_solutions": 60, "families_with_solutions": 12},
-                "thorough": {"trees_judged": 8000, "solvers_with_solutions": 1200, "families_with_solutions": 22}},
+                "thorough": {"trees_judged": 6000, "solvers_with_solutions": 500, "families_with_solutions": 22}},
     "assumptions": ["R1/R2 reference models; R2 abstentions (ambiguous match, Z3 undecided) are inconclusive",
                     "solutions are judged against the constraint as given, not against solver-internal states",
                     "exceptions out of solve() are C02's subject and only counted here"],
